@@ -2,6 +2,7 @@
    invariant).  H is an arbitrary hash function everywhere; fuel bounds the recursion of the model
    (out-of-fuel is the error value EFuel, excluded by every "= Ok" hypothesis). *)
 From Sophia.C05 Require Import Proofs.
+From Sophia.C05 Require Import Related RelatedProofs.
 From Coq Require Import Permutation Factorial.
 
 (* (1) the identifier map returned by relabel_with / used by normalize_with is a bijection from
@@ -167,6 +168,69 @@ Check (step5_t_erase : forall H fuel h2b st tie,
 Check (run_ties_defined : forall H v fuel df pl d r,
   relabel_with H v fuel df pl d = Ok r -> exists t, run_ties H v fuel df pl d = Some t).
 
+(* (8) a blank node related to ONE other node through several quads (different predicates, graph
+   names, directions).  The related hash is H (quad part ++ node part); the quad part tells the
+   position and, unless the position is g, the predicate, so that with a collision-free H the hash
+   computed for one quad cannot stand for a quad with another predicate or another position; the
+   graph name (and at position g the predicate) plays no part *)
+Check (hash_related_factor : forall H st related q iss pos,
+  hash_related H st related q iss pos
+  = match related_pre q pos with
+    | Err e => Err e
+    | Ok pre =>
+        match related_id st iss related with
+        | Some x => Ok (H (pre ++ x))
+        | None => Err ENoId
+        end
+    end).
+Check (related_pre_inj : forall q1 q2 pos1 pos2 a,
+  related_pre q1 pos1 = Ok a -> related_pre q2 pos2 = Ok a ->
+  pos1 = pos2 /\ (pos1 <> pos_g -> q_pred q1 = q_pred q2)).
+Check (hash_related_separates_predicates :
+  forall H st related iss pos s1 p1 o1 g1 s2 p2 o2 g2 h1 h2,
+  (forall a b, H a = H b -> a = b) ->
+  pos <> pos_g -> p1 <> p2 ->
+  hash_related H st related (s1, Iri p1, o1, g1) iss pos = Ok h1 ->
+  hash_related H st related (s2, Iri p2, o2, g2) iss pos = Ok h2 ->
+  h1 <> h2).
+Check (hash_related_separates_positions : forall H st related iss pos1 pos2 q1 q2 h1 h2,
+  (forall a b, H a = H b -> a = b) ->
+  pos1 <> pos2 ->
+  hash_related H st related q1 iss pos1 = Ok h1 ->
+  hash_related H st related q2 iss pos2 = Ok h2 ->
+  h1 <> h2).
+Check (hash_related_ignores_graph : forall H st related iss pos s p o g g',
+  hash_related H st related (s, p, o, g) iss pos = hash_related H st related (s, p, o, g') iss pos).
+Check (hash_related_at_g_ignores_predicate : forall H st related iss q q',
+  hash_related H st related q iss pos_g = hash_related H st related q' iss pos_g).
+(* (8') step 3 of Hash N-Degree Quads pushes the (related hash, related node) pairs of the quads one
+   after the other, and the map Hn it builds does not depend on the order in which the dataset
+   yields the quads of the node: same related hashes, same multiset of related nodes under each
+   (with (5'): the same arrangements are then visited) *)
+Check (hn_quads_pairs : forall H st ident iss qs hn,
+  hn_quads H st ident iss qs hn
+  = match pairs_quads H st ident iss qs with
+    | Ok l => Ok (push_all l hn)
+    | Err e => Err e
+    end).
+Check (push_all_perm : forall l l', Permutation l l' ->
+  forall m, hn_equiv (push_all l m) (push_all l' m)).
+Check (hn_quads_order_independent : forall H st ident iss qs qs' hn,
+  Permutation qs qs' ->
+  hn_quads H st ident iss qs [] = Ok hn ->
+  exists hn', hn_quads H st ident iss qs' [] = Ok hn' /\ hn_equiv hn hn').
+Check (hn_equiv_keys : forall m m', hn_equiv m m' -> map fst m = map fst m').
+Check (hn_equiv_lists : forall m m' k l l', hn_equiv m m' -> NoDup (map fst m) ->
+  In (k, l) m -> In (k, l') m' -> Permutation l l').
+(* the witness of the class (n_i p x_i . n_i q x_i . x_i r "i", i = 1..4): the siblings share their
+   first-degree hash, and all 16 choices of which link quad comes first give one result *)
+Check (mp_witness_siblings :
+  first_degree mpH true (mp_witness 0) [110; 49] = first_degree mpH true (mp_witness 0) [110; 52]
+  /\ first_degree mpH true (mp_witness 0) [110; 49] <> None
+  /\ first_degree mpH true (mp_witness 0) [120; 49] <> first_degree mpH true (mp_witness 0) [120; 52]).
+Check (mp_witness_all_orders :
+  forallb (fun mask => res_eqb (mp_run mask) (mp_run 0)) [0;1;2;3;4;5;6;7;8;9;10;11;12;13;14;15] = true).
+
 (* non-vacuity *)
 Example heap_123 : heap_perms [1;2;3] = [[1;2;3];[2;1;3];[3;1;2];[1;3;2];[2;3;1];[3;2;1]].
 Proof. reflexivity. Qed.
@@ -231,3 +295,15 @@ Print Assumptions no_ties_nonvacuous.
 Print Assumptions hnd_t_erase.
 Print Assumptions step5_t_erase.
 Print Assumptions run_ties_defined.
+Print Assumptions hash_related_factor.
+Print Assumptions related_pre_inj.
+Print Assumptions hash_related_separates_predicates.
+Print Assumptions hash_related_separates_positions.
+Print Assumptions hash_related_ignores_graph.
+Print Assumptions hash_related_at_g_ignores_predicate.
+Print Assumptions hn_quads_pairs.
+Print Assumptions push_all_perm.
+Print Assumptions hn_quads_order_independent.
+Print Assumptions hn_equiv_keys.
+Print Assumptions hn_equiv_lists.
+Print Assumptions mp_witness_all_orders.
